@@ -139,20 +139,28 @@ fn fam_filters(ctx: &CaseCtx, cov: &mut Cov) -> CaseOut {
         _ => {
             // unknown / random filter ids, alone or before LZMA2
             let (data, p2, _) = gen_payload(&mut rng, true);
-            let id: u64 = match rng.below(5) {
+            // every small ID in turn (single filter, one property byte: the shape of a
+            // supported block), then random ones
+            let systematic = (ctx.index / 3) % 2 == 0;
+            let id: u64 = if systematic {
+                (ctx.index / 6) % 0x60
+            } else {
+                match rng.below(5) {
                 0 => rng.range(0, 0x20),
                 1 => rng.range(0x22, 0x7F),
                 2 => rng.range(0x80, 0x3FFF),
                 3 => 0x4000_0000_0000_0001, // LZMA1, not allowed in .xz
                 _ => rng.next() >> 2,
+                }
             };
             if id == 0x21 {
                 return out;
             }
-            let nprops = rng.below(4) as usize;
-            let f1 = FilterSpec { id, props: rng.bytes(nprops) };
+            let nprops = if systematic { 1 } else { rng.below(4) as usize };
+            let f1 = FilterSpec { id, props: if systematic { vec![xz::lzma2_dict_prop_for(p2.len() as u64)] } else { rng.bytes(nprops) } };
             let lz = FilterSpec { id: 0x21, props: vec![xz::lzma2_dict_prop_for(p2.len() as u64)] };
-            let filters = if rng.chance(1, 2) { vec![f1, lz] } else { vec![f1] };
+            let filters = if !systematic && rng.chance(1, 2) { vec![f1, lz] } else { vec![f1] };
+            cov.add("filter_id_single_chain", id.min(0x60) as u32, 1);
             let nf = filters.len();
             let b = BlockSpec::with_filters(data, p2, check as u8, &BlockOpts::default(), filters);
             let file = XzSpec::new(check as u8, vec![b]).serialize().0;
